@@ -400,6 +400,27 @@ def hop_family_case(acc, rng):
 
 def _hop_family_one(acc, rng, nsub, N, sizes, addrs, sens):
     topo = [[1 if i == j else 0 for j in range(N)] for i in range(N)]
+    if rng.random() < 0.3:
+        # spokes and hub: k chains of length L from the internet, each ending
+        # in a sensitive subnet, plus a hub (deeper than all of them) next to
+        # every chain end - the cheapest connecting set goes through the hub
+        k, L = rng.choice([(2, 3), (3, 3), (2, 4), (3, 2)])
+        nsub = k * L + 1
+        N = nsub + 1
+        topo = [[1 if i == j else 0 for j in range(N)] for i in range(N)]
+        sizes = [1] * nsub
+        addrs = [(s + 1, 0) for s in range(nsub)]
+        sens = []
+        for c in range(k):
+            prev = 0
+            for j in range(L):
+                s = 1 + c * L + j
+                topo[prev][s] = topo[s][prev] = 1
+                prev = s
+            topo[prev][nsub] = topo[nsub][prev] = 1
+            sens.append((prev, 0))
+        acc.count("hop_clause_spokes_and_hub")
+        return _hop_family_build(acc, rng, nsub, N, sizes, addrs, sens, topo)
     for b in range(2, N):
         a = rng.randint(1, b - 1) if rng.random() < 0.8 else max(1, b - 1)
         topo[a][b] = topo[b][a] = 1
@@ -410,6 +431,10 @@ def _hop_family_one(acc, rng, nsub, N, sizes, addrs, sens):
     if rng.random() < 0.2:
         p = rng.randint(2, nsub)
         topo[0][p] = topo[p][0] = 1
+    return _hop_family_build(acc, rng, nsub, N, sizes, addrs, sens, topo)
+
+
+def _hop_family_build(acc, rng, nsub, N, sizes, addrs, sens, topo):
     hosts = {a: dict(os="linux", services=["ssh"], processes=["p"],
                      value=0.0, discovery_value=0.0, firewall={})
              for a in addrs}
